@@ -40,6 +40,17 @@ FRAGMENTS = [
     ("sql", [], ["cur.execute('SELECT * FROM t WHERE id = %s' % uid)"]),
     ("jinja", ["import jinja2"], ["jinja2.Environment(autoescape=False)"]),
     ("rsa_small", ["from Crypto.PublicKey import RSA"], ["RSA.generate(512)"]),
+    # aliased / from-imported spellings: what a call check finds depends on the alias table built by the import visits
+    ("popen_alias", ["import subprocess as sp"], ["sp.Popen(cmd, shell=True)"]),
+    ("popen_from", ["from subprocess import Popen"], ["Popen(cmd, shell=True)"]),
+    ("call_from_as", ["from subprocess import call as run_it"], ["run_it(['ls'])"]),
+    ("os_system_from", ["from os import system"], ["system(cmd)"]),
+    ("md5_from", ["from hashlib import md5"], ["md5(data)"]),
+    ("pickle_alias", ["import pickle as pk"], ["pk.loads(blob)"]),
+    ("et_alias", ["import xml.etree.ElementTree as ET2"], ["ET2.fromstring(text)"]),
+    ("yaml_alias", ["import yaml as y"], ["y.load(stream)"]),
+    ("paramiko_from", ["from paramiko import SSHClient"], ["c.exec_command(cmd)"]),
+    ("chmod_from", ["from os import chmod"], ["chmod('/etc/x', 0o777)"]),
 ]
 
 
